@@ -76,7 +76,7 @@ def run_wsgi_case(ctx, r, method, headers, edges):
     res, marks = call()
     ctx.mon("wsgi-automaton")
     expect_exc = r.get("raise_at") is not None
-    probs = automata.check_wsgi(res.events, prefix=expect_exc, edges=edges)
+    probs = automata.check_wsgi(res.events, prefix=expect_exc, edges=edges, once=True)
     for w, d in probs:
         ctx.violation(f"wsgi|{w}|{r['cls']}", case, d)
     nitems = len(res.items)
@@ -130,7 +130,7 @@ def run_wsgi_case(ctx, r, method, headers, edges):
     for n in fault_points(0, nitems):
         fres, fmarks = call(close_after=n)
         ctx.mon("fault-prefix")
-        for w, d in automata.check_wsgi(fres.events, prefix=True, edges=edges):
+        for w, d in automata.check_wsgi(fres.events, prefix=True, edges=edges, once=True):
             ctx.violation(f"wsgi|fault|{w}|{r['cls']}", dict(case, fault=f"close-after-{n}"), d)
         ctx.mon("fault-exception-identity")
         raise_at = r.get("raise_at")
@@ -283,7 +283,7 @@ def run(ctx):
                 try:
                     if iface == "wsgi":
                         res = (drivers.run_wsgi_guarded if pool else drivers.run_wsgi)(obj, drivers.to_environ(req), fault or None)
-                        probs = automata.check_wsgi(res.events, prefix=bool(fault), edges=edges)
+                        probs = automata.check_wsgi(res.events, prefix=bool(fault), edges=edges, once=True)
                     else:
                         res = drivers.run_asgi(obj, drivers.to_scope(req), disconnect_after_sends=(fault + 1) if fault else None)
                         probs = automata.check_asgi_http(res.sent, prefix=bool(fault), edges=edges)
@@ -321,7 +321,7 @@ def run(ctx):
                 req = drivers.Req(method=method, headers=hdrs)
                 if iface == "wsgi":
                     res = drivers.run_wsgi(obj, drivers.to_environ(req))
-                    probs = automata.check_wsgi(res.events, prefix=True, edges=edges)
+                    probs = automata.check_wsgi(res.events, prefix=True, edges=edges, once=True)
                 else:
                     res = drivers.run_asgi(obj, drivers.to_scope(req))
                     probs = automata.check_asgi_http(res.sent, prefix=True, edges=edges)
